@@ -125,9 +125,9 @@ class P(b1.Plugin):
                 used.add(cur)
         if r is not None:
             parts = [x.strip() for x in r.split(",")]
-            if len(parts) > 1 and rng.random() < 0.5:
-                # the hints spread over several #[repr] attributes, in either order
-                if rng.random() < 0.5:
+            if len(parts) > 1 and rng.random() < 0.7:
+                # the hints spread over several #[repr] attributes, in either order (the integer type more often in a later one)
+                if (parts[0] in INT_RANGE) == (rng.random() < 0.7):
                     parts.reverse()
                     if "C" in parts and all_unit:
                         parts = [x for x in parts if x != "C"]
